@@ -115,6 +115,27 @@ theorem request_roundtrip_tcp (r : Req) (hp : C01.Plain r) (hw : PduSpec.WFReq r
     ⟨r.fc, data, rfl, by simp [hdec, Except.map], hu, rfl⟩
   exact this
 
+/-- … and for EVERY framing (TCP, RTU, ASCII, binary), stated generically like `response_roundtrip`: the packet the
+    framer builds around the encoding of a request is delivered by the server-side receiver as that request -/
+theorem request_roundtrip (F : Framing) (r : Req) (hp : C01.Plain r) (hw : PduSpec.WFReq r) (hd : C01.DiagOneWord r)
+    (units : List Nat) (single : Bool)
+    (f : VFrame Req) (hf : ∃ data, Impl.encReq r = .ok data ∧ f.pdu = r.fc :: data ∧ f.msg = PduSpec.normReq r)
+    (hu : validUnit units single f.uid = true)
+    (hb : ∀ data, f.pdu = r.fc :: data →
+      match F with
+      | .tcp => f.bytes = tcpFrame f.tid f.pid f.uid r.fc data
+      | .rtu rule => f.bytes = rtuFrame f.uid r.fc data ∧ f.tid = f.uid ∧ f.pid = 0 ∧ RtuSized rule (rtuFrame f.uid r.fc data)
+      | .ascii => f.bytes = asciiFrame f.uid r.fc data ∧ f.tid = 0 ∧ f.pid = 0 ∧ f.uid < 256 ∧ r.fc < 256 ∧ Bytes.WF data
+      | .binary => f.bytes = binFrame f.uid r.fc data ∧ f.tid = 0 ∧ f.pid = 0 ∧ NoDelim (binBody f.uid r.fc data)) :
+    feed (stepOf F) (fun pdu => (Impl.decReq pdu).map some) units single [] f.bytes =
+      ([.deliver (PduSpec.normReq r) f.uid f.tid f.pid], []) := by
+  obtain ⟨data, he, hpdu, hm⟩ := hf
+  obtain ⟨bs, he', hdec⟩ := C02.roundtrip_req r hp hw hd
+  rw [he] at he'; injection he' with he'; subst he'
+  have := whole_packet_delivers (μ := Req) F (fun pdu => (Impl.decReq pdu).map some) units single f
+    ⟨r.fc, data, hpdu, by simp [hpdu, hdec, Except.map, hm], hu, hb data hpdu⟩
+  rw [hm] at this; exact this
+
 /-- … and a response through the client-side receiver — RTU/ASCII/binary/TCP alike, stated generically -/
 theorem response_roundtrip (F : Framing) (r : Resp) (hw : C01.WFResp r) (units : List Nat) (single : Bool)
     (f : VFrame Resp) (hf : ∃ data, Impl.encResp r = .ok data ∧ f.pdu = r.fc :: data ∧ f.msg = PduSpec.normResp r)
